@@ -36,6 +36,8 @@ func rulesC07(c *Ctx) {
 	// (no window in which an installed key is absent), and a held operation is installed under the instance it was sent to
 	ribFamily(c, famSel{mergeTotal: true, noTrace: true}) // … and an acknowledged operation was really written (no "already installed" shortcut that keeps stale fields)
 	ruleRetryAfterInstall(c)
+	ruleExplicitReplace(c) // an installed entry is only removed by the operation that replaces or deletes it: an explicit replace touches nothing before the gate has answered (shared with C01)
+	ruleCounterCallers(c)  // a RIB rebuilt from Get responses is built by merging the entries only (shared with C03)
 }
 
 // concreteOf: the Concrete*Proto function whose parameter is *aft.Afts_<Struct>
@@ -215,11 +217,32 @@ func ruleConcreteProtoPaths(c *Ctx) {
 				elems = []string{"<not the entry>"}
 				continue
 			}
-			ast.Inspect(call.Args[1], func(n ast.Node) bool {
+			// the path literal, written in place or built by a simple constructor from constant arguments
+			pathExpr, pinfo := ast.Expr(call.Args[1]), info
+			arg := map[types.Object]ast.Expr{}
+			if hc, ok := ast.Unparen(resolveLocal(info, fi.Decl, pathExpr)).(*ast.CallExpr); ok {
+				if hfi, ret := simpleHelper(info, hc); hfi != nil {
+					for i, p := range paramObjs(hfi.Pkg.TypesInfo, hfi.Decl) {
+						if i < len(hc.Args) && p != nil {
+							arg[p] = hc.Args[i]
+						}
+					}
+					pathExpr, pinfo = ret, hfi.Pkg.TypesInfo
+				}
+			}
+			ast.Inspect(pathExpr, func(n ast.Node) bool {
 				if kv, ok := n.(*ast.KeyValueExpr); ok {
 					if id, ok := kv.Key.(*ast.Ident); ok && id.Name == "Name" {
-						if tv, ok := info.Types[kv.Value]; ok && tv.Value != nil {
+						v, vi := kv.Value, pinfo
+						if pid, ok := ast.Unparen(v).(*ast.Ident); ok {
+							if a, ok := arg[pinfo.ObjectOf(pid)]; ok {
+								v, vi = a, info
+							}
+						}
+						if tv, ok := vi.Types[v]; ok && tv.Value != nil {
 							elems = append(elems, strings.Trim(tv.Value.ExactString(), `"`))
+						} else {
+							elems = append(elems, "<not a constant>")
 						}
 					}
 				}
